@@ -100,3 +100,9 @@ PROPS["C15"] = {"units": [
     plain_unit("regress", "vfilter", "^TestRegressC15", overlay="full"),
     rapid_unit("virtual-clock", "vfilter", "^TestC15TokenBucket$", 600, 16 * 5000, overlay="full"),
 ]}
+
+PROPS["C14"] = {"units": [
+    plain_unit("regress", "vfilter", "^TestRegressC14", overlay="full"),
+    rapid_unit("delay-filter-free", "vfilter", "^TestC14DelayFilter$", 400, 16 * 3000, overlay="full"),
+    rapid_unit("router-delay-e2e", "vnete2e", "^TestC14RouterDelay$", 120, 16 * 800, overlay="plain"),
+]}
